@@ -813,24 +813,48 @@ def special_pairwise(ctx, names, rng, npr, dz, terms, meta):
                 for j in range(i + 1, n):
                     terms.append(case_term(X0[i], X0[j], P, [(tag, float(M[i, j]))]))
                     meta.append((dict(api="pairwise_special_metric", metric=name, x=X0[i], y=X0[j], params=dict(z=dz)), [(name, tag, float(M[i, j]), okm)]))
-    # the callable path (sklearn pairwise_distances around a jitted closure with the keyword values)
-    if "minkowski" in names:
-        n, d = 4, 5
-        X = f32(npr.normal(size=(n, d))); X0 = X.copy()
-        desc = dict(api="pairwise_special_metric(callable)", metric="minkowski", X=X0, p=3.0)
-        try:
-            M = np.asarray(D.pairwise_special_metric(X, metric=D.named_distances["minkowski"], kwds={"p": 3.0}), dtype=np.float64)
+    # the callable path (sklearn pairwise_distances around a jitted closure with the keyword values): SEQUENCES of calls with the same
+    # metric and parameter names but different parameter values (a value must not survive from an earlier call), incl. array-valued ones
+    n, d = 4, 5
+    X = f32(npr.normal(size=(n, d))); X0 = X.copy()
+    X64 = X0.astype(np.float64)
+    def mink(p):
+        return lambda a, b: float(np.sum(np.abs(a - b) ** p)) ** (1.0 / p)
+    def wmink(w, p):
+        return lambda a, b: float(np.sum(w * np.abs(a - b) ** p)) ** (1.0 / p)
+    def seuc(V):
+        return lambda a, b: float(np.sqrt(np.sum((a - b) ** 2 / V)))
+    def maha(VI):
+        return lambda a, b: float(np.sqrt((a - b) @ VI @ (a - b)))
+    w1, w2 = np.abs(npr.normal(size=d)) + 0.5, np.abs(npr.normal(size=d)) + 0.5
+    V1, V2 = np.abs(npr.normal(size=d)) + 0.5, np.abs(npr.normal(size=d)) * 3 + 0.5
+    A1, A2 = npr.normal(size=(d, d)), npr.normal(size=(d, d))
+    VI1, VI2 = A1 @ A1.T + np.eye(d), A2 @ A2.T + np.eye(d)
+    seqs = [("minkowski", [({"p": 3.0}, mink(3.0)), ({"p": 1.0}, mink(1.0)), ({"p": 3.0}, mink(3.0))]),
+            ("wminkowski", [({"w": w1, "p": 2.0}, wmink(w1, 2.0)), ({"w": w2, "p": 2.0}, wmink(w2, 2.0)), ({"w": w2, "p": 3.0}, wmink(w2, 3.0))]),
+            ("seuclidean", [({"sigma": V1}, seuc(V1)), ({"sigma": V2}, seuc(V2))]),
+            ("mahalanobis", [({"vinv": VI1}, maha(VI1)), ({"vinv": VI2}, maha(VI2))])]
+    for name, calls in seqs:
+        if name not in names:
+            continue
+        for step, (kw, ref) in enumerate(calls):
+            desc = dict(api="pairwise_special_metric(callable)", metric=name, X=X0, kwds={k: v for k, v in kw.items()}, call_number_in_sequence=step + 1)
+            try:
+                M = np.asarray(D.pairwise_special_metric(X, metric=D.named_distances[name], kwds=dict(kw)), dtype=np.float64)
+            except Exception as e:   # noqa
+                ctx.fail("pairwise_special_metric:callable:raises", "%s: %s" % (type(e).__name__, e), desc); break
             if X.tobytes() != X0.tobytes():
                 ctx.fail("pairwise_special_metric:callable:mutates_arguments", "X modified", desc)
-            for i in range(n):
-                for j in range(n):
-                    want = float(np.sum(np.abs(X0[i].astype(np.float64) - X0[j].astype(np.float64)) ** 3.0)) ** (1 / 3.0)
-                    if abs(M[i, j] - want) > 1e-6 + 1e-5 * want:
-                        ctx.fail("pairwise_special_metric:callable:value", "entry (%d,%d) = %r, definition gives %r" % (i, j, M[i, j], want), desc)
-            ctx.tag(("pairwise_callable", X0.tobytes()), ["pairwise_special_metric_callable"])
-        except Exception as e:   # noqa
-            ctx.fail("pairwise_special_metric:callable:raises", "%s: %s" % (type(e).__name__, e), desc)
-
+            ctx.evaluations += n * n
+            bad = False
+            for i_ in range(n):
+                for j_ in range(n):
+                    want = ref(X64[i_], X64[j_])
+                    if abs(M[i_, j_] - want) > 1e-5 + 1e-4 * want and not bad:
+                        bad = True
+                        ctx.fail("pairwise_special_metric:callable:value" + (":later_call" if step else ""),
+                                 "%s call %d of a sequence: entry (%d,%d) = %r, definition with THESE parameters gives %r" % (name, step + 1, i_, j_, M[i_, j_], want), desc)
+            ctx.tag(("pairwise_callable", name, step, X0.tobytes()), ["pairwise_special_metric_callable"] + (["repeated_call_new_parameter_values"] if step else []))
 
 def _drop(P, i):
     Q = dict(P)
